@@ -23,6 +23,11 @@ def history(rng, version, directed):
         st = [["in", "255;255;3;0;3;"], ["in", f"{rng.choice([1, 5, 40])};255;0;0;17;{version}"], ["tick"],
               ["in", "255;255;3;0;3;"], ["restart"], ["in", "255;255;3;0;3;"]]
         st = [s for s in st if rng.random() < 0.9]
+        if rng.random() < 0.4:
+            # the node that got the id presents itself while the application's callback is failing, then the next
+            # node asks for an id
+            st += [["in", "255;255;3;0;3;"], ["cbraise", True], ["present-last-id"], ["cbraise", False], ["in", "255;255;3;0;3;"],
+                   ["in", "255;255;3;0;3;"]]
     n = rng.randint(8, 30)
     hi = rng.random() < 0.3
     for _ in range(n):
@@ -32,6 +37,8 @@ def history(rng, version, directed):
         elif k < 0.55:
             nid = rng.choice(PRES_IDS) if (hi or rng.random() < 0.2) else rng.choice([1, 2, 3, 4, 5, 6, 10, 20, rng.randint(0, 255)])
             st.append(["in", f"{nid};255;0;0;{rng.choice([17, 18])};{version}"])
+        elif k < 0.6:
+            st.append(["present-last-id"] if rng.random() < 0.6 else ["cbraise", rng.random() < 0.5])
         elif k < 0.7:
             st.append(["tick"])
         elif k < 0.82:
@@ -102,6 +109,7 @@ def run(job):
             res.count("histories")
             res.count("ticks", out["ticks"])
             res.count("restarts", len(out["restarts"]))
+            res.count("presentations_of_handed_out_ids", out.get("presentations_of_handed_out_ids", 0))
             judge(res, cfg, steps, out)
             if h == 0:
                 res.count("exhaustion_ids_handed_out", len(out["idresp"]))
